@@ -21,7 +21,7 @@ Some(x) == [k |-> "some", v |-> x]
 (*****************************  builder state  *****************************)
 NewSelect == [kind |-> "select", distinct |-> NoneV, selects |-> <<>>, from |-> <<>>, joins |-> <<>>,
               where |-> EmptyHolder, groups |-> <<>>, having |-> EmptyHolder, unions |-> <<>>, orders |-> <<>>,
-              limit |-> NoneV, offset |-> NoneV, lock |-> NoneV, window |-> NoneV, with |-> NoneV, hints |-> <<>>]
+              limit |-> NoneV, offset |-> NoneV, lock |-> NoneV, window |-> NoneV, with |-> NoneV, hints |-> <<>>, sample |-> NoneV]
 NewInsert == [kind |-> "insert", replace |-> FALSE, table |-> NoneV, ins |-> InitStmt, on_conflict |-> NoneV,
               returning |-> NoneV, with |-> NoneV]
 NewUpdate == [kind |-> "update", table |-> NoneV, from |-> <<>>, values |-> <<>>, where |-> EmptyHolder,
@@ -77,6 +77,7 @@ ApplySelect(s, c) ==
     [] c.op = "lock" -> [s EXCEPT !.lock = [k |-> "lock", type |-> c.type, tables |-> Get(c, "tables", <<>>), behavior |-> Get(c, "behavior", "none")]]
     [] c.op = "union" -> [s EXCEPT !.unions = Append(@, [type |-> c.type, q |-> BuildStmt(c.q)])]
     [] c.op = "with_cte" -> [s EXCEPT !.with = BuildWith(c.w)]
+    [] c.op = "table_sample" -> [s EXCEPT !.sample = [k |-> "sample", method |-> c.method, pct |-> c.pct, rep |-> IF Has(c, "rep") THEN Some(c.rep) ELSE NoneV]]
     [] c.op = "window" -> [s EXCEPT !.window = [k |-> "window", name |-> c.name, w |-> c.w]]
     [] c.op \in {"use_index", "force_index", "ignore_index"} ->
          [s EXCEPT !.hints = Append(@, [type |-> c.op, name |-> c.name, scope |-> Get(c, "scope", "All")])]
@@ -225,6 +226,11 @@ RHints(B, O, hs) ==
          \o (CASE hs[i].scope = "Join" -> "FOR JOIN " [] hs[i].scope = "OrderBy" -> "FOR ORDER BY " [] hs[i].scope = "GroupBy" -> "FOR GROUP BY " [] OTHER -> "")
          \o "(" \o Q(B, hs[i].name) \o ")"], " ")
 
+\* PostgreSQL TABLESAMPLE (extension::postgres::PostgresSelectStatementExt::table_sample), written after the FROM list
+RSample(B, sm) ==
+  IF B # "pg" \/ IsNone(sm) THEN ""
+  ELSE " TABLESAMPLE " \o sm.method \o " (" \o NatToStr(sm.pct) \o ")" \o (IF IsNone(sm.rep) THEN "" ELSE " REPEATABLE (" \o NatToStr(sm.rep.v) \o ")")
+
 RSelectExpr(B, O, x) ==
   RExpr(B, O, x.e)
   \o (IF IsNone(x.w) THEN ""
@@ -240,7 +246,7 @@ RSelect(B, O, s) ==
       ELSE IF B = "pg" THEN "DISTINCT ON (" \o Sep([i \in DOMAIN s.distinct.cols |-> Q(B, s.distinct.cols[i])]) \o ") "
       ELSE " ")
   \o Sep([i \in DOMAIN s.selects |-> RSelectExpr(B, O, s.selects[i])])
-  \o Opt1(Len(s.from) > 0, " FROM " \o Sep([i \in DOMAIN s.from |-> RTableRef(B, O, s.from[i])]) \o RHints(B, O, s.hints))
+  \o Opt1(Len(s.from) > 0, " FROM " \o Sep([i \in DOMAIN s.from |-> RTableRef(B, O, s.from[i])]) \o RHints(B, O, s.hints) \o RSample(B, s.sample))
   \o ConcatAll([i \in DOMAIN s.joins |->
        " " \o JoinText(s.joins[i].jt) \o " " \o Opt1(s.joins[i].lateral, "LATERAL ") \o RTableRef(B, O, s.joins[i].t)
        \o RHolder(B, O, "ON", s.joins[i].on)])
